@@ -413,7 +413,7 @@ fn run_encoder_refuses(server: bool, pre: u8, pend_before: u8, o: &mut Outcome) 
     steps.push(SrcStep::Item(bad));
     steps.push(SrcStep::Item(b"post".to_vec()));
     let role = if server { Role::Server } else { Role::Client };
-    let out = drive_encode(RawCodec::default().encoder(), steps, role, None, false, None, 256, if server { 3 } else { 0 });
+    let out = drive_encode(RawCodec { bs: None, refuse: true }.encoder(), steps, role, None, false, None, 256, if server { 3 } else { 0 });
     judge_encode_failure(&out, server, &expect, None, Code::Internal, "encoder-refuses")
 }
 
